@@ -146,3 +146,57 @@ package kv
 //@ func SnapshotLoader.AddChunk
 //@ trusted
 //@ modifies nothing
+
+// ---------------------------------------------------------------- applying a put (C12, C15, C16)
+
+//@ func GetStorageEntry(batch, key) (se, err)
+//@ trusted
+//@ modifies nothing
+//@ ensures err == nil ==> se != nil && fresh(se)
+//@ ensures !errIs(err, ErrBadVersionId)
+//@ note trusted: reads and deserializes the stored entry (pooled protobuf object)
+
+// A conditional operation goes ahead only if the expected version is the current one;
+// 'not exists' (-1) and 'no expectation' match an absent key; an existing key with a
+// different version, or an expectation on an absent key, is a version conflict.
+//
+//@ func checkExpectedVersionId(batch, key, expectedVersionId) (se, err)
+//@ property C12
+//@ requires batch != nil
+//@ ensures err == nil && se != nil ==> expectedVersionId == nil || se.VersionId == *expectedVersionId
+//@ ensures err == nil && se == nil ==> expectedVersionId == nil || *expectedVersionId == -1
+//@ ensures errIs(err, ErrBadVersionId) ==> expectedVersionId != nil && se == nil
+//@ ensures err != nil ==> se == nil
+//@ modifies fields(proto.StorageEntry)
+
+//@ func SequenceWaiterTracker.SequenceUpdated(recv, prefixKey, lastSequenceKey)
+//@ trusted
+//@ modifies ghost(seqUpdates, recv)
+//@ ensures ghost(seqUpdates, recv) == old(ghost(seqUpdates, recv)) + 1
+
+//@ func UpdateOperationCallback.OnPut(recv, batch, req, se) (status, err)
+//@ trusted
+//@ modifies ghset(present, batch)
+//@ note the callbacks (sessions, secondary indexes) write index/shadow keys into the batch; their own contracts are in package server (C15)
+
+//@ func notifications.Modified
+//@ trusted
+//@ modifies fields(notifications), fields(proto.NotificationBatch), mapof(n.batch.Notifications)
+
+// applyPut: what is written for a put. The version id is a new one, greater than every
+// id handed out before (the tracker is incremented by exactly one per applied user put);
+// the stored entry carries the request's value, session, identity, partition key and
+// secondary-index declarations; a version conflict writes nothing and is reported as a
+// per-operation status; every put with sequence deltas announces the generated key to
+// the sequence waiters, whether or not change notifications are enabled.
+//
+//@ func db.applyPut(d, batch, notifications, putReq, timestamp, updateOperationCallback, internal) (res, err)
+//@ property C12 C15 C16
+//@ requires batch != nil && putReq != nil && updateOperationCallback != nil && d.sequenceWaiterTracker != nil && d.log != nil
+//@ requires d.versionIdTracker.v >= -1 && d.versionIdTracker.v < 4611686018427387904
+//@ assert at call MarshalVT#0: se.SecondaryIndexes == putReq.SecondaryIndexes && se.Value == putReq.Value && se.SessionId == putReq.SessionId && se.ClientIdentity == putReq.ClientIdentity && se.PartitionKey == putReq.PartitionKey && se.ModificationTimestamp == timestamp
+//@ assert at call MarshalVT#0: !internal ==> se.VersionId == d.versionIdTracker.v && d.versionIdTracker.v == old(d.versionIdTracker.v) + 1
+//@ ensures old(len(putReq.SequenceKeyDelta)) > 0 ==> ghost(seqUpdates, d.sequenceWaiterTracker) == old(ghost(seqUpdates, d.sequenceWaiterTracker)) + 1
+//@ ensures d.versionIdTracker.v == old(d.versionIdTracker.v) || d.versionIdTracker.v == old(d.versionIdTracker.v) + 1
+//@ ensures err == nil ==> res != nil
+//@ modifies *
